@@ -10,6 +10,6 @@ Definition shared_shape : list (string * bool) :=
    ("create_proof", true);
    ("event_subscribe", true);
    ("has", true);
-   ("get", false);
+   ("get", true);
    ("append", true);
    ("append_batch", true)].
